@@ -18,6 +18,8 @@ pub(crate) struct TxFreelist {
     pub(crate) inner: Freelist,
     pub(crate) pages: BTreeMap<u64, (NonNull<u8>, usize)>,
     pub(crate) arena: Bump,
+    // Pages already freed by this transaction
+    freed: BTreeSet<PageID>,
 }
 
 impl<'a> TxFreelist {
@@ -27,13 +29,17 @@ impl<'a> TxFreelist {
             inner,
             pages: BTreeMap::new(),
             arena: Bump::new(),
+            freed: BTreeSet::new(),
         }
     }
 
     pub(crate) fn free(&mut self, page_id: PageID, num_pages: u64) {
         debug_assert!(num_pages > 0, "cannot free zero pages");
         for id in page_id..(page_id + num_pages) {
-            self.inner.free(self.meta.tx_id, id);
+            // Deleting a nested bucket and then one of its ancestors reaches the same pages twice
+            if self.freed.insert(id) {
+                self.inner.free(self.meta.tx_id, id);
+            }
         }
     }
 
